@@ -58,7 +58,7 @@ def readBE (b : Bytes) (pos w : Nat) : Res Nat := do
   let s ← b.slice pos (pos + w)
   pure (Bytes.be s)
 
-/-- ASCII bytes of a string literal -/
-def asc (s : String) : Bytes := s.toUTF8.toList
+/-- bytes of an ASCII string literal (reduces by `decide` / `rfl`) -/
+def asc (s : String) : Bytes := s.toList.map (fun c => UInt8.ofNat c.toNat)
 
 end GV
